@@ -1,0 +1,13 @@
+//go:build verif
+
+// Contracts for the verif build tag (read by /verif/govc; comment-only).
+package model
+
+// The identity of a server: its name if set, else its internal address.
+//@ define srvId(s github.com/oxia-db/oxia/coordinator/model.Server) string = ite(s.Name == nil, s.Internal, *s.Name)
+
+//@ func Server.GetIdentifier
+//@ property C05 C19
+//@ pure
+//@ reads fields(Server), fields(string)
+//@ ensures result == ite(sv.Name == nil, sv.Internal, *sv.Name)
